@@ -221,13 +221,19 @@ ValAtoms(v, f, cast, obj) ==
             THEN UNION {MapAtoms(v.es, fv.vs[i]) : i \in DOMAIN fv.vs} \cup {{"F"}}
        ELSE {FM}
   ELSE {EvalVal(v, f, cast, obj)}
+(* a quantifier is an "atom" too: of(.., n) whose count is not reached yields a non-true value    *)
+(* that the language leaves open (the engine: missing when no operand was false), even when      *)
+(* every member is definite                                                                    *)
 EntryAtoms(e, obj) == UNION {ValAtoms(Members(e)[i], e.f, CastOf(e.m), obj) : i \in DOMAIN Members(e)}
+                      \cup (IF e.m \in {"all", "of"} THEN {EvalEntry(e, obj)} ELSE {})
 MapAtoms(es, obj) == UNION {EntryAtoms(es[i], obj) : i \in DOMAIN es}
 BodyAtoms(body, doc) == IF body.t = "map" THEN MapAtoms(body.es, doc)
                         ELSE UNION {MapAtoms(body.ms[i].es, doc) : i \in DOMAIN body.ms}
 RECURSIVE CondAtoms(_, _, _)
 CondAtoms(c, ids, doc) ==
-  CASE c.t \in {"id", "all", "of"} -> BodyAtoms(Lookup(ids, c.n), doc)
+  CASE c.t = "id" -> BodyAtoms(Lookup(ids, c.n), doc)
+    [] c.t = "all" -> BodyAtoms(Lookup(ids, c.n), doc) \cup {AllS(EntryResults(Lookup(ids, c.n), doc))}
+    [] c.t = "of" -> BodyAtoms(Lookup(ids, c.n), doc) \cup {OfS(c.c, EntryResults(Lookup(ids, c.n), doc))}
     [] c.t \in {"and", "or"} -> CondAtoms(c.l, ids, doc) \cup CondAtoms(c.r, ids, doc)
     [] c.t \in {"not", "par"} -> CondAtoms(c.e, ids, doc)
     [] c.t = "cmp" -> {CmpCond(c, doc)}
